@@ -12,7 +12,7 @@ TRUSTED_BASE = c08.TRUSTED_BASE
 ASSUMPTIONS = ["bytes are UDP payload bytes captured on the harness-owned relay sockets"]
 RULE = ("raw peers (no client object) send valid, repeated, undersized, oversized, wrong-version, config-refused and server-full SYNs and stray frames of every other type "
         "to a server, then wait up to 25 s while the server steps; per address the running totals of bytes sent by the server and bytes received from the address are "
-        "compared after every step: sent < received whenever anything was sent, and nothing is sent in response to an undersized request. Round-7 family: servers with idle timeouts of minutes to "none", one full-size request per address, ten minutes of silence. Non-trivial: the server replied.")
+        "compared after every step: sent < received whenever anything was sent, and nothing is sent in response to an undersized request. Round-7 family: servers with idle timeouts of minutes to none at all, one full-size request per address, ten minutes of silence. Non-trivial: the server replied.")
 
 def streams(rng, tier, ctx):
     n = 24 if tier == "quick" else 300
